@@ -96,7 +96,7 @@ def judge(ctx, p, rng=None):
     # the same text through the other ways in, and with its values moved
     # into %define'd names that the environment happens to have as well
     for label, exp, obs in cc.entry_variants(
-            ctx, p, rng, [rng.choice(["path", "padded", "fobj"])]):
+            ctx, p, rng, [rng.choice(["path", "padded", "fobj", "fobj-bytes"])]):
         ctx.res.count("entry_" + label)
         judge_one(ctx, p, exp, obs, dict(p.case(), entry=label), False)
     if p.tree is not None:
